@@ -455,6 +455,46 @@ class Assembler:
             self.inlined = getattr(self, 'inlined', set()) | {(repo_file, name)}
         raise AnchorError('R13: helper inlining does not terminate in ' + qual)
 
+    def do_fn_guarded(self, repo_file, container, name, opts, ann, tline):
+        """do_fn, but a function whose annotations can no longer be attached (lost loop/closure/proof anchor, a
+        helper R13 must refuse, a substitution anchor) - or that the caller asks to degrade after a verifier
+        front-end error inside it - is kept as signature + contract with its body dropped (ASSUMED for this run) and
+        reported in meta['degraded_fns']: only the properties its obligations carry become undecided, not the unit."""
+        qual = '%s::%s::%s' % (repo_file, container, name)
+        want = getattr(self, 'degrade', {}) or {}
+        if 'assumed' in opts:
+            return self.do_fn(repo_file, container, name, opts, ann, tline)
+        reason = want.get(qual)
+        if reason is None:
+            snap = (len(self.out), len(self.map), len(self.functions), dict(self.obligations), len(self.fn_ranges), dict(self.rule_counts),
+                    list(getattr(self, 'assumed', [])), {k: set(v) for k, v in self.containers_seen.items()}, set(getattr(self, 'inlined', set())))
+            try:
+                return self.do_fn(repo_file, container, name, opts, ann, tline)
+            except AnchorError as e:
+                find_fn(repo_file, container, name)      # a function that is gone cannot be degraded: re-raises
+                del self.out[snap[0]:]; del self.map[snap[1]:]; del self.functions[snap[2]:]; self.obligations = snap[3]; del self.fn_ranges[snap[4]:]
+                self.rule_counts = snap[5]; self.assumed = snap[6]; self.containers_seen = snap[7]; self.inlined = snap[8]
+                reason = str(e)
+        obs = {}
+        contract_only = []
+        in_contract = True
+        for (tl, ln) in ann:
+            st = ln.strip()
+            if st.startswith(('//@loop', '//@closure', '//@proof')): in_contract = False
+            if st.startswith('//@contract'):
+                cf = os.path.join(SPECS, 'contracts', st.split()[1])
+                for cl in open(cf).read().split('\n'):
+                    m = re.search(r'//\s*@ob\s+(\S+)\s+(\S+)\s*$', cl)
+                    if m: obs[m.group(2)] = m.group(1).split(',')
+            m = re.search(r'//\s*@ob\s+(\S+)\s+(\S+)\s*$', ln)
+            if m: obs[m.group(2)] = m.group(1).split(',')
+            if in_contract: contract_only.append((tl, ln))
+        self.degraded = getattr(self, 'degraded', []) + [{'fn': qual, 'reason': reason, 'obligations': obs, 'safety': list(opts.get('safety', []))}]
+        opts2 = dict(opts); opts2['assumed'] = 'DEGRADED in this run (body not verified): ' + reason[:200]
+        for k in ('chainrw', 'resub', 'inline', 'bodysub'): opts2.pop(k, None)
+        opts2['bodysub'] = []
+        return self.do_fn(repo_file, container, name, opts2, contract_only, tline)
+
     def do_fn(self, repo_file, container, name, opts, ann, tline):
         src, it = find_fn(repo_file, container, name)
         self.containers_seen.setdefault((repo_file, container), set()).add(name)
@@ -529,6 +569,24 @@ class Assembler:
             # the contract is an assumption in this unit: its clauses are not obligations here
             ann2 = [(tl, re.sub(r'//\s*@ob\s+\S+\s+\S+\s*$', '// (assumed here; proved or checked elsewhere: %s)' % opts['assumed'], ln)) for (tl, ln) in ann2]
         ann = ann2
+        # //@locals a,b,c : the let-bound names of the function body, in textual order, as they were when the
+        # annotations below were written.  If /repo has since RENAMED locals (same number of bindings), the names in
+        # the annotations are re-bound positionally and the function is marked `rebound` (a proof failure in a rebound
+        # function is never reported as a violation, see vf.py); if bindings were added or removed the template names
+        # are used as they are (names that no longer exist then surface as a front-end error -> the function is degraded).
+        rebound = False
+        loc_decl = [ln.strip()[len('//@locals'):].strip() for (tl, ln) in ann if ln.strip().startswith('//@locals')]
+        ann = [(tl, ln) for (tl, ln) in ann if not ln.strip().startswith('//@locals')]
+        if loc_decl and 'assumed' not in opts:
+            want = [x.strip() for x in loc_decl[0].split(',') if x.strip()]
+            have = re.findall(r'\blet\s+(?:mut\s+)?([a-z_][A-Za-z0-9_]*)\b', rsparse.mask(body))
+            if have != want and len(have) == len(want):
+                mp = {a: b for a, b in zip(want, have) if a != b}
+                def rb(ln):
+                    return re.sub(r'\b(' + '|'.join(re.escape(k) for k in mp) + r')\b', lambda m: mp[m.group(1)], ln) if mp else ln
+                ann = [(tl, ln if ln.strip().startswith('//@') else rb(ln)) for (tl, ln) in ann]
+                rebound = True
+                counts['Rrebind'] = len(mp)
         for (tl, ln) in ann:
             s = ln.strip()
             if s.startswith('//@loop'):
@@ -564,6 +622,9 @@ class Assembler:
                     raise AnchorError('closure ordinal %d not found in %s (has %d)' % (k, qual, len(ch)))
                 inserts.append((ch[k][0], 'closure', lines, (ch[k][1], head)))
         for (nth, anchor, lines, where) in proofs:
+            if anchor == '<start>':
+                # the very beginning of the function body (where Verus wants `hide(..)` / `reveal(..)` headers)
+                inserts.append((body.index('{') + 1, 'proof', lines, None)); continue
             pos = -1
             for _ in range(nth + 1):
                 pos = body.find(anchor, pos + 1)
@@ -572,15 +633,16 @@ class Assembler:
             if where == 'before':
                 ls = body.rfind('\n', 0, pos) + 1      # start of the anchor's line
             else:
-                ls = body.find('\n', pos) + 1            # start of the line after the anchor's line (anchor line opens a block)
-                if not body[pos:ls].rstrip().endswith('{'):
-                    raise AnchorError('proofafter anchor does not open a block in %s: %r' % (qual, anchor))
+                ls = body.find('\n', pos) + 1            # start of the line after the anchor's line (the anchor line opens a block or is a whole statement)
+                if not body[pos:ls].rstrip().endswith(('{', ';')):
+                    raise AnchorError('proofafter anchor neither opens a block nor ends a statement in %s: %r' % (qual, anchor))
             inserts.append((ls, 'proof', lines, None))
         inserts.sort(key=lambda x: x[0])
         ls = it.line_span()
         self.functions.append({'fn': qual, 'file': repo_file, 'lines': ls,
                                'sha256': hashlib.sha256(it.proper.encode()).hexdigest()[:16],
-                               'rules': counts})
+                               'rules': counts, 'rebound': rebound,
+                               'annotated_body': bool(loops) or any(a != '<start>' for (_, a, _, _) in proofs) or bool(closures)})
         for k, v in counts.items():
             self.rule_counts[k] = self.rule_counts.get(k, 0) + v
         first = len(self.out) + 1
@@ -705,7 +767,7 @@ class Assembler:
                 i += 1
                 while i < len(lines) and not lines[i].strip().startswith('//@endfn'):
                     ann.append((i + 1, lines[i])); i += 1
-                self.do_fn(repo_file, container, name, opts, ann, i + 1)
+                self.do_fn_guarded(repo_file, container, name, opts, ann, i + 1)
             elif s.startswith('//@consts'):
                 # //@consts <repo file> | <container or -> : every const/static item of the container (zero or more), verbatim (R6)
                 parts = [p.strip() for p in s[len('//@consts'):].split('|')]
@@ -716,6 +778,13 @@ class Assembler:
                         if it.kind in ('const', 'static') and '#[cfg(test)]' not in it.attrs:
                             counts = {}
                             text = transform_common(it.proper, counts)
+                            # R6b: Verus consts are dual-mode, so their initialisers cannot call exec-only functions;
+                            # `size_of::<primitive>()` is replaced by the size the language guarantees (usize: 8, as
+                            # declared by `global size_of usize == 8` in the prelude)
+                            def so(m):
+                                counts['R6b'] = counts.get('R6b', 0) + 1
+                                return {'u8': '1', 'i8': '1', 'u16': '2', 'i16': '2', 'u32': '4', 'i32': '4', 'u64': '8', 'i64': '8', 'usize': '8', 'isize': '8'}[m.group(1)]
+                            text = re.sub(r'(?:(?:std|core)::)?mem::size_of::<(u8|i8|u16|i16|u32|i32|u64|i64|usize|isize)>\(\)', so, text)
                             if not re.match(r'\s*pub\b', text):
                                 text = 'pub ' + text.lstrip(); counts['R11'] = counts.get('R11', 0) + 1
                             for k, v in counts.items():
@@ -773,16 +842,17 @@ class Assembler:
             if extra:
                 raise AnchorError('functions in %s [%s] not under contract: %s' % (rf, cont, ', '.join(sorted(extra))))
 
-def assemble(unit, outdir, probe=False):
+def assemble(unit, outdir, probe=False, degrade=None):
     tpl = os.path.join(SPECS, 'units', unit + '.rs')
     a = Assembler(unit)
     a.probe = probe
+    a.degrade = degrade or {}
     a.run(tpl)
     if probe: unit = unit + '_probe'
     os.makedirs(outdir, exist_ok=True)
     out_rs = os.path.join(outdir, unit + '.rs')
     open(out_rs, 'w').write('\n'.join(a.out) + '\n')
-    meta = {'unit': unit, 'assumed_fns': getattr(a, 'assumed', []), 'functions': a.functions, 'items': a.items_used, 'rules': a.rule_counts,
+    meta = {'unit': unit, 'assumed_fns': getattr(a, 'assumed', []), 'degraded_fns': getattr(a, 'degraded', []), 'functions': a.functions, 'items': a.items_used, 'rules': a.rule_counts,
             'obligations': a.obligations, 'fn_ranges': a.fn_ranges,
             'line_ob': {str(k + 1): m['ob'] for k, m in enumerate(a.map) if m['ob']},
             'line_origin': [m['origin'] for m in a.map]}
